@@ -24,9 +24,23 @@ def _table(f: FuncNode) -> Optional[Dict[int, str]]:
 def _nbytes(f: FuncNode, e: ast.expr, widths: Iterable[int]) -> Optional[Dict[int, int]]:
     e = resolve_names(f, e)
     out = {}
+
+    class Tab(ast.NodeTransformer):
+        # {8: 1, 16: 2, ..}[width] reads as the entry of the width under evaluation
+        def __init__(self, w: int):
+            self.w = w
+
+        def visit_Subscript(self, node: ast.Subscript) -> ast.AST:
+            self.generic_visit(node)
+            if isinstance(node.value, ast.Dict) and norm(node.slice) in WIDTH_NAMES:
+                for k, v in zip(node.value.keys, node.value.values):
+                    if isinstance(k, ast.Constant) and k.value == self.w and isinstance(v, ast.Constant) and isinstance(v.value, int):
+                        return ast.copy_location(ast.Constant(value=v.value), node)
+            return node
+    import copy
     for w in widths:
         try:
-            out[w] = eval_int_expr(e, {k: w for k in WIDTH_NAMES})
+            out[w] = eval_int_expr(Tab(w).visit(copy.deepcopy(e)), {k: w for k in WIDTH_NAMES})
         except (AnalysisError, ZeroDivisionError, TypeError, ValueError):
             return None
     return out
